@@ -241,6 +241,33 @@ func rulesC05(w *World, o *Out) {
 	o.Rule("C05.R2", "the batch checkpoint's Keccak256 input is influenced by token, receivers, amounts, nonce, timeout, relayer address, gas estimate and the turnstone id; every other field of the batch / transfer types is individually classified as not delivered")
 	o.Rule("C05.R3", "the only id given to a new queued message comes from IDGenerator.IncrementNextID with one constant counter name, which persists last+1; no caller-supplied value can become the id of a newly created message")
 
+	// the hashers are judged on the queue entry they receive: that must be the stored entry itself
+	o.Rule("C05.R5", "the signing bytes of a queued message are computed by its action's hasher from the queue entry itself (id, elected gas estimate, ... as stored), not from a copy that drops fields")
+	if gb := w.MustFunc(o, "x/consensus/types", "QueuedSignedMessage", "GetBytesToSign"); gb != nil {
+		o.Analysed(w.FuncKey(gb))
+		hs := FindCalls(gb, false, func(c Callee) bool { return c.Name == "Keccak256WithSignedMessage" })
+		o.Count("C05.R5 hasher invocations in GetBytesToSign", len(hs), 1)
+		for _, h := range hs {
+			args := h.Args()
+			ok := len(args) > 0 && len(gb.Params) > 0 && canon(args[len(args)-1]) == ssa.Value(gb.Params[0])
+			o.Check("C05.R5", "GetBytesToSign|the hasher receives the stored queue entry", ok, w.Pos(h.Instr.Pos()), "Keccak256WithSignedMessage must be given the receiver q; the hashers read q.Id and q.GasEstimate, so a trimmed or rebuilt entry makes the signing bytes independent of fields that are delivered")
+		}
+		for _, r := range Returns(gb) {
+			if r.Kind == RetError {
+				continue
+			}
+			okR := false
+			for _, h := range hs {
+				for _, c := range callsBehind(r.Ret.Results[0]) {
+					if c == h.Value() {
+						okR = true
+					}
+				}
+			}
+			o.Check("C05.R5", "GetBytesToSign|returns the hasher's bytes", okR, w.Pos(r.Ret.Pos()), "the bytes validators sign must be the result of the action's Keccak256WithSignedMessage")
+		}
+	}
+
 	nAct := 0
 	for _, action := range evmActions {
 		S, sf := signedSet(w, o, fl, action)
@@ -624,6 +651,54 @@ func rulesC07(w *World, o *Out) {
 		}
 		for _, req := range c07Required[action] {
 			o.Check("C07.R1", action+"|expected call data depends on "+req, covered(req, D) || coveredBelow(req, D), w.Pos(df.Pos()), "D="+strings.Join(keys(D), ","))
+		}
+		// ... on the whole field: a variable-length message field is not cut to a fixed width on the way into the
+		// expected call data (copy into a window of a fixed-size array keeps only as many bytes as the window holds)
+		for _, g := range unitFuncs(df) {
+			for _, c := range CallsIn(g) {
+				b, isB := c.Common().Value.(*ssa.Builtin)
+				if !isB || b.Name() != "copy" || len(c.Args()) != 2 {
+					continue
+				}
+				sl, isSl := c.Args()[0].(*ssa.Slice)
+				if !isSl {
+					continue
+				}
+				pt, isPtr := sl.X.Type().Underlying().(*types.Pointer)
+				if !isPtr {
+					continue
+				}
+				if _, isArr := pt.Elem().Underlying().(*types.Array); !isArr {
+					continue
+				}
+				// a copy under a check of the source's length is a bounded copy, not a truncation
+				lenChecked := false
+				for _, f := range FactsAt(c.Instr) {
+					if f.Kind != FCmp {
+						continue
+					}
+					for _, side := range []ssa.Value{f.X, f.Y} {
+						if lc, isC := canon(side).(*ssa.Call); isC {
+							if lb, isLB := lc.Call.Value.(*ssa.Builtin); isLB && lb.Name() == "len" && canon(lc.Call.Args[0]) == canon(c.Args()[1]) {
+								lenChecked = true
+							}
+						}
+					}
+				}
+				if lenChecked {
+					continue
+				}
+				aps, _ := fl.Influence(c.Args()[1])
+				var fields []string
+				for ap := range aps {
+					if q, isP := ap.Root.(*ssa.Parameter); isP && len(df.Params) > 0 && q == df.Params[0] && ap.Path != "" {
+						fields = append(fields, ap.Path)
+					}
+				}
+				sort.Strings(fields)
+				o.Check("C07.R1", action+"|message fields enter the expected call data whole", len(fields) == 0, w.Pos(c.Instr.Pos()),
+					"copy into a fixed-size array window truncates "+strings.Join(fields, ",")+": a transaction carrying the truncated value would verify, the one carrying the message would not")
+			}
 		}
 	}
 	o.Count("C07.R1 VerifyAgainstTX implementations", n, 5)
